@@ -91,6 +91,7 @@ func main() {
 			run.Packages = pk
 			run.Extra["client_packages_not_judged"] = p.Clients
 			ctx := &rules.Ctx{P: p, R: run, Tier: *tier, Depth: depth}
+			ctx.InstallSoften()
 			check(ctx)
 			p = nil
 			ctx = nil
@@ -141,7 +142,9 @@ func runAll(tier, repo, verif string) int {
 					run.Undecf("checker", "-", "panic", "-", "the analyser must not fail", fmt.Sprintf("panic: %v\n%s", e, debug.Stack()))
 				}
 			}()
-			rules.Registry[id](&rules.Ctx{P: p, R: run, Tier: tier, Depth: 3})
+			cx := &rules.Ctx{P: p, R: run, Tier: tier, Depth: 3}
+			cx.InstallSoften()
+			rules.Registry[id](cx)
 		}()
 		if run.Finish() != 0 {
 			rc = 1
